@@ -147,6 +147,10 @@ Trailer(c) == CASE c = 0 -> <<>>
                 [] c = 6 -> <<192 + 11, 1, 66>>                      \* [PRIVATE 11] primitive
                 [] c = 7 -> <<64 + 10, 1, 67>>                       \* [APPLICATION 10] primitive
                 [] c = 8 -> <<192 + 1, 1, 255>>                      \* [PRIVATE 1] primitive
+                \* an unknown element FOLLOWED by universal ones: once the extension additions have begun, a later OCTET STRING
+                \* or BOOLEAN is not an optional component of the sequence any more
+                [] c = 9 -> <<128 + 5, 1, 120, 4, 1, 121>>           \* [5] "x", OCTET STRING "y"
+                [] c = 10 -> <<128 + 5, 1, 120, 1, 1, 255, 1, 1, 0>> \* [5] "x", BOOLEAN TRUE, BOOLEAN FALSE
 HasNeed(r) == "need" \in DOMAIN r
 
 RECURSIVE EncAltNode(_, _, _), EncAltKids(_, _, _, _, _)
@@ -202,11 +206,15 @@ DAllOct(ks, j, acc) ==
     IF j > Len(ks) THEN [ok |-> TRUE, vs |-> acc]
     ELSE LET r == DOct(ks[j]) IN IF r.ok THEN DAllOct(ks, j + 1, Append(acc, r.v)) ELSE Bad
 
-\* extras: the elements ks[p..] after the defined components.  Strict: none.  Liberal: anything whose
-\* tag is not one of the sequence's own optional components (reserved, given as a set of <<cls, num>>).
+\* extras: the elements ks[p..] after the defined components.  Strict: none.  Liberal: the defined components are
+\* matched in order; the first element that is not the next expected component begins the extension additions, and
+\* nothing after it is a component any more - whatever tag it carries (RFC 4511 section 4, X.680 extension marker at the
+\* end of the type).  The FIRST extra must therefore not carry the tag of an optional component that could still
+\* follow (reserved, a set of <<cls, num>>): it would have been taken as that component.
 ExtrasOK(ks, p, strict, reserved) ==
     IF strict THEN p > Len(ks)
-    ELSE \A j \in p..Len(ks) : ~ks[j].bad /\ <<ks[j].cls, ks[j].num>> \notin reserved
+    ELSE /\ \A j \in p..Len(ks) : ~ks[j].bad
+         /\ (p <= Len(ks) => <<ks[p].cls, ks[p].num>> \notin reserved)
 
 RECURSIVE DFilter(_, _), DFilterList(_, _, _, _)
 DAva(n, strict) ==
